@@ -118,25 +118,36 @@ def write_ndjson(path, recs):
 
 
 def mc_inputs_from_trace(trace_path, out_path, maxsize, cap):
-    seen, n = set(), 0
-    with open(trace_path) as f, open(out_path, "w") as o:
+    """small inputs for the generative model, spread over the catalogue entries (largest first within an entry)"""
+    seen, per = set(), {}
+    with open(trace_path) as f:
         for line in f:
             if '"e":"reset"' not in line:
                 continue
-            e = json.loads(line)
-            if e.get("deep") or e["src"] != "json" and False:
+            if any(x in line for x in ('"7ff', '"fff')):   # non-finite floats: the opaque jvalue phase is not generative
                 continue
-            if any(x in line for x in ('"7ff', '"fff')):   # non-finite floats: opaque jvalue phase is not generative
+            e = json.loads(line)
+            if e.get("deep"):
                 continue
             key = json.dumps([e["ty"], e["val"]], sort_keys=True)
-            if key in seen or size(e["val"]) > maxsize:
+            sz = size(e["val"])
+            if key in seen or sz > maxsize:
                 continue
             seen.add(key)
-            o.write(json.dumps({"ty": e["ty"], "val": e["val"], "pk": e["pk"], "src": e["src"]}) + "\n")
-            n += 1
-            if n >= cap:
-                break
-    return n
+            per.setdefault(e["ty"], []).append((sz, {"ty": e["ty"], "val": e["val"], "pk": e["pk"], "src": e["src"]}))
+    for k in per:
+        per[k].sort(key=lambda x: -x[0])
+    out = []
+    rank = 0
+    while len(out) < cap and any(len(v) > rank for v in per.values()):
+        for k in sorted(per):
+            if len(per[k]) > rank and len(out) < cap:
+                out.append(per[k][rank][1])
+        rank += 1
+    with open(out_path, "w") as o:
+        for r in out:
+            o.write(json.dumps(r) + "\n")
+    return len(out)
 
 
 def is_known_collision(run_events):
@@ -190,13 +201,13 @@ def validate(pid, trace_path, nshards, timeout=3000):
         meta.append((sp, sh))
         jobs.append((vlib.validate_trace, ("Trace_core", "Trace_core.cfg", sp, "%s-core-%s-%d" % (pid, os.path.basename(trace_path), k), timeout, None, "3g")))
     outs = vlib.parallel(jobs, min(len(jobs), max(1, vlib.NCPU // 2)))
-    tot = {"lines": 0, "runs": 0, "reports": 0, "breaks": 0, "compared": 0, "perms": 0, "msgs": 0, "states": 0,
+    tot = {"lines": 0, "runs": 0, "reports": 0, "breaks": 0, "compared": 0, "perms": 0, "msgs": 0, "calls": 0, "states": 0,
            "vcount": {}, "checked": {}}
     bad = []
     for (sp, sh), (res, tr) in zip(meta, outs):
         if res["lines"] != len(sh):
             raise vlib.ToolError("shard %s not fully consumed" % sp)
-        for k in ("lines", "runs", "reports", "breaks", "compared", "perms", "msgs"):
+        for k in ("lines", "runs", "reports", "breaks", "compared", "perms", "msgs", "calls"):
             tot[k] += res[k]
         tot["states"] += tr.distinct
         for p, c in res["vcount"].items():
@@ -226,7 +237,7 @@ def run(pid, tier, prop=None):
 
     # --- TLC on the specification: every order x every answer sequence on the small inputs
     mcin = os.path.join(tdir, "%s-mcin.ndjson" % pid)
-    nmc = mc_inputs_from_trace(t1, mcin, 7 if tier == "quick" else 9, 160 if tier == "quick" else 900)
+    nmc = mc_inputs_from_trace(t1, mcin, 7 if tier == "quick" else 9, 220 if tier == "quick" else 1200)
     mc_runs = []
     states = transitions = 0
     violations = []
@@ -270,7 +281,7 @@ def run(pid, tier, prop=None):
         if tot_all is None:
             tot_all = tot
         else:
-            for k in ("lines", "runs", "reports", "breaks", "compared", "perms", "msgs", "states"):
+            for k in ("lines", "runs", "reports", "breaks", "compared", "perms", "msgs", "calls", "states"):
                 tot_all[k] += tot[k]
             for d in ("vcount", "checked"):
                 for p, c in tot[d].items():
@@ -325,6 +336,7 @@ def run(pid, tier, prop=None):
         "events_compared_with_keep_going_run": tot_all["compared"],
         "permuted_runs_compared": tot_all["perms"],
         "builtin_messages_compared": tot_all["msgs"],
+        "user_function_calls_seen": tot_all["calls"],
         "guard_evaluations_for_this_property": exercised,
         "violations_by_property_in_this_trace": {k: v for k, v in tot_all["vcount"].items() if v},
         "checker_cmd": "tlc MC_core (MC_core_free.cfg, MC_core_canon.cfg) + tlc Trace_core per shard",
